@@ -245,6 +245,61 @@ func checkStemChunks(w *World, r *Report) {
 
 // ---- operand counts of the path operators (AST interpreter)
 
+// The local variables of AppendEdges are identified by their types, not by
+// their names: the operand list is the [][]byte variable, the command list
+// the []enCmd (encoder) variable, the result the []edge variable.
+var c04Names = struct{ code, cmds, edges string }{"code", "cmds", "edges"}
+
+func c04ResolveNames(info *types.Info, fd *ast.FuncDecl) {
+	c04Names.code, c04Names.cmds, c04Names.edges = "code", "cmds", "edges"
+	seen := map[string]string{}
+	ast.Inspect(fd, func(n ast.Node) bool {
+		id, ok := n.(*ast.Ident)
+		if !ok {
+			return true
+		}
+		obj := info.Defs[id]
+		if obj == nil {
+			return true
+		}
+		v, ok := obj.(*types.Var)
+		if !ok {
+			return true
+		}
+		switch t := v.Type().Underlying().(type) {
+		case *types.Slice:
+			es := t.Elem().String()
+			switch {
+			case es == "[]byte":
+				if _, dup := seen["code"]; !dup {
+					seen["code"] = id.Name
+				}
+			case strings.HasSuffix(es, "cff.enCmd"):
+				if _, isParam := seen["cmds"]; !isParam && !v.IsField() {
+					// the receiver (enc) has the same element type: prefer a variable defined in the body
+					if id.Pos() > fd.Body.Pos() {
+						seen["cmds"] = id.Name
+					}
+				}
+			case strings.HasSuffix(es, "cff.edge"):
+				if _, dup := seen["edges"]; !dup {
+					seen["edges"] = id.Name
+				}
+			}
+		}
+		return true
+	})
+	if v, ok := seen["code"]; ok {
+		c04Names.code = v
+	}
+	if v, ok := seen["cmds"]; ok {
+		c04Names.cmds = v
+	}
+	if v, ok := seen["edges"]; ok {
+		c04Names.edges = v
+	}
+}
+
 type esState struct {
 	a     int             // operands appended to code since the reference point
 	cap   int             // operands that may be appended since the reference point
@@ -299,6 +354,7 @@ func checkEdgeStack(w *World, r *Report) {
 		r.Fatal("AppendEdges / encodeArgs not found in package cff")
 		return
 	}
+	c04ResolveNames(pkg.TypesInfo, appendEdges)
 	in := &esInterp{w: w, r: r, info: pkg.TypesInfo, fset: w.Fset, maxStack: 48, opArity: map[string]int{}, fnName: "(cff.encoder).AppendEdges"}
 	if c, ok := pkg.Types.Scope().Lookup("maxStack").(*types.Const); ok {
 		if v, ok := constant.Int64Val(c.Val()); ok {
@@ -360,7 +416,7 @@ func (in *esInterp) block(stmts []ast.Stmt, states []esState, lp *esLoop) []esSt
 
 func (in *esInterp) isCode(e ast.Expr) bool {
 	id, ok := e.(*ast.Ident)
-	return ok && id.Name == "code"
+	return ok && id.Name == c04Names.code
 }
 
 func (in *esInterp) pos(n ast.Node) string {
@@ -423,7 +479,7 @@ func (in *esInterp) stmt(s ast.Stmt, states []esState, lp *esLoop) []esState {
 						return out
 					}
 					// edges = append(edges, edge{code: ..., to: ...})
-					if lid, ok := x.Lhs[0].(*ast.Ident); ok && lid.Name == "edges" {
+					if lid, ok := x.Lhs[0].(*ast.Ident); ok && lid.Name == c04Names.edges {
 						for _, a := range call.Args[1:] {
 							cl, ok := a.(*ast.CompositeLit)
 							if !ok {
@@ -431,7 +487,15 @@ func (in *esInterp) stmt(s ast.Stmt, states []esState, lp *esLoop) []esState {
 							}
 							for _, el := range cl.Elts {
 								kv, ok := el.(*ast.KeyValueExpr)
-								if !ok || types.ExprString(kv.Key) != "code" {
+								if !ok {
+									continue
+								}
+								// the field of edge that holds the operand list: by type
+								if kid, isID := kv.Key.(*ast.Ident); isID {
+									if obj := in.info.ObjectOf(kid); obj == nil || obj.Type().String() != "[][]byte" {
+										continue
+									}
+								} else {
 									continue
 								}
 								for _, st := range states {
@@ -517,7 +581,7 @@ func (in *esInterp) stmt(s ast.Stmt, states []esState, lp *esLoop) []esState {
 			for _, sp := range gd.Specs {
 				if vs, ok := sp.(*ast.ValueSpec); ok {
 					for _, nm := range vs.Names {
-						if nm.Name == "code" {
+						if nm.Name == c04Names.code {
 							var out []esState
 							for _, st := range states {
 								st.a, st.cap = 0, in.maxStack
@@ -820,6 +884,7 @@ func checkFlexGuards(w *World, r *Report) {
 		r.Fatal("AppendEdges not found")
 		return
 	}
+	c04ResolveNames(pkg.TypesInfo, fd)
 	// cmdArg parses cmds[i].Args[j] (optionally followed by .Code / .Val / .IsZero())
 	cmdArg := func(e ast.Expr) ([2]int, bool) {
 		if call, ok := e.(*ast.CallExpr); ok {
@@ -837,7 +902,7 @@ func checkFlexGuards(w *World, r *Report) {
 			return [2]int{}, false
 		}
 		ci, ok := sel.X.(*ast.IndexExpr)
-		if !ok || types.ExprString(ci.X) != "cmds" {
+		if !ok || types.ExprString(ci.X) != c04Names.cmds {
 			return [2]int{}, false
 		}
 		cv, ok1 := pkg.TypesInfo.Types[ci.Index]
@@ -1326,7 +1391,7 @@ func (in *osInterp) cmdArgOf(e ast.Expr, st *osState) (int, int, bool) {
 		return 0, 0, false
 	}
 	ci, ok := sel.X.(*ast.IndexExpr)
-	if !ok || types.ExprString(ci.X) != "cmds" {
+	if !ok || types.ExprString(ci.X) != c04Names.cmds {
 		return 0, 0, false
 	}
 	c, ok1 := in.evalInt(ci.Index, st)
@@ -1483,7 +1548,7 @@ func (in *osInterp) stmt(s ast.Stmt, st *osState) (fall, cont []*osState) {
 							return []*osState{n}, nil
 						}
 					}
-					if f, ok := call.Fun.(*ast.Ident); ok && f.Name == "append" && id.Name == "code" {
+					if f, ok := call.Fun.(*ast.Ident); ok && f.Name == "append" && id.Name == c04Names.code {
 						n := st.clone()
 						for _, a := range call.Args[1:] {
 							if c, ai, ok := in.cmdArgOf(a, st); ok {
@@ -1494,7 +1559,7 @@ func (in *osInterp) stmt(s ast.Stmt, st *osState) (fall, cont []*osState) {
 						}
 						return []*osState{n}, nil
 					}
-					if f, ok := call.Fun.(*ast.Ident); ok && f.Name == "append" && id.Name == "edges" {
+					if f, ok := call.Fun.(*ast.Ident); ok && f.Name == "append" && id.Name == c04Names.edges {
 						in.edges = append(in.edges, osEdge{op: in.op, n: st.ints["pos"], events: append([]osEvent{}, st.events...), pos: x.Pos()})
 						return []*osState{st}, nil
 					}
@@ -1504,7 +1569,7 @@ func (in *osInterp) stmt(s ast.Stmt, st *osState) (fall, cont []*osState) {
 					n.ints[id.Name] = v
 					return []*osState{n}, nil
 				}
-				if id.Name == "code" { // code = code[:0]
+				if id.Name == c04Names.code { // code = code[:0]
 					n := st.clone()
 					n.events = nil
 					return []*osState{n}, nil
@@ -1615,13 +1680,14 @@ func checkOperandSelection(w *World, r *Report) {
 		r.Fatal("AppendEdges not found")
 		return
 	}
+	c04ResolveNames(pkg.TypesInfo, fd)
 	in := &osInterp{info: pkg.TypesInfo}
 	// ops := []t2op{...} assignments: remember the literal for the following range statement
 	var lastOps []string
 	ast.Inspect(fd.Body, func(n ast.Node) bool {
 		switch x := n.(type) {
 		case *ast.AssignStmt:
-			if len(x.Lhs) == 1 && len(x.Rhs) == 1 && types.ExprString(x.Lhs[0]) == "ops" {
+			if len(x.Lhs) == 1 && len(x.Rhs) == 1 && isT2opSlice(pkg.TypesInfo, x.Lhs[0]) {
 				if cl, ok := x.Rhs[0].(*ast.CompositeLit); ok {
 					lastOps = nil
 					for _, e := range cl.Elts {
@@ -1630,7 +1696,7 @@ func checkOperandSelection(w *World, r *Report) {
 				}
 			}
 		case *ast.RangeStmt:
-			if types.ExprString(x.X) == "ops" && len(lastOps) > 0 {
+			if isT2opSlice(pkg.TypesInfo, x.X) && len(lastOps) > 0 {
 				in.runForms(x, lastOps, 4)
 				return false
 			}
@@ -1864,4 +1930,23 @@ func checkWidthDict(w *World, r *Report) {
 		r.Fail("widthdict", r.MkKey("widthdict", "cff", "width operators"), "-", "the writes of defaultWidthX / nominalWidthX were not found", nil)
 	}
 	r.Floor("widthdict", 2)
+}
+
+func isT2opSlice(info *types.Info, e ast.Expr) bool {
+	var t types.Type
+	if id, ok := e.(*ast.Ident); ok {
+		if obj := info.ObjectOf(id); obj != nil {
+			t = obj.Type()
+		}
+	}
+	if t == nil {
+		if tv, ok := info.Types[e]; ok {
+			t = tv.Type
+		}
+	}
+	if t == nil {
+		return false
+	}
+	sl, ok := t.Underlying().(*types.Slice)
+	return ok && strings.HasSuffix(sl.Elem().String(), "cff.t2op")
 }
